@@ -516,14 +516,16 @@ class Grammar(Model):
         rulemap = {rule.name: rule for rule in self.rules}
         self._rule = SimpleNamespace(**rulemap)
         self._rulemap = self._rule.__dict__
-        self.link(self)
-        self._calc_lookahead_sets()
-        self._mark_left_recursion()
 
+        # NOTE: before any analysis, which looks rules up by name
         missing: set[str] = self.missing_rules(set(self.rulemap))
         if missing:
             msg = ' '.join(missing)
             raise GrammarError('unknown rules, no parser generated: ' + msg)
+
+        self.link(self)
+        self._calc_lookahead_sets()
+        self._mark_left_recursion()
 
     def configure(self, config: ParserConfig | None = None, **settings: Any):
         self._config.merge_config(config)
